@@ -3,6 +3,7 @@
 //! Reference model: a stack of adapters is a list of (kind, argument) pairs; a point given to the
 //! top of the stack is mapped level by level down to parent coordinates (shifts) and may be
 //! dropped (clips). Everything is written with `i64` comparisons, no `Rectangle` methods.
+use crate::common::R;
 use crate::prelude::*;
 use embedded_graphics::draw_target::{Clipped, ColorConverted, Cropped, DrawTargetExt, Translated};
 
@@ -42,29 +43,6 @@ impl Lower for Gray2 { type Up = BinaryColor; }
 
 #[derive(Clone, Copy, PartialEq, Eq, Debug)]
 pub enum Kind { Clip, Crop, Trans, Conv }
-
-/// integer rectangle of the model: left, top, width, height (width/height >= 0)
-#[derive(Clone, Copy, PartialEq, Eq, Debug)]
-pub struct R { pub l: i64, pub t: i64, pub w: i64, pub h: i64 }
-impl R {
-    pub fn of(r: &Rectangle) -> R {
-        R { l: r.top_left.x as i64, t: r.top_left.y as i64, w: r.size.width as i64, h: r.size.height as i64 }
-    }
-    pub fn empty(&self) -> bool { self.w <= 0 || self.h <= 0 }
-    pub fn has(&self, x: i64, y: i64) -> bool { x >= self.l && x < self.l + self.w && y >= self.t && y < self.t + self.h }
-    pub fn inter(&self, o: &R) -> R {
-        let l = if self.l > o.l { self.l } else { o.l };
-        let t = if self.t > o.t { self.t } else { o.t };
-        let r = if self.l + self.w < o.l + o.w { self.l + self.w } else { o.l + o.w };
-        let b = if self.t + self.h < o.t + o.h { self.t + self.h } else { o.t + o.h };
-        if r <= l || b <= t { R { l: 0, t: 0, w: 0, h: 0 } } else { R { l, t, w: r - l, h: b - t } }
-    }
-    pub fn shift(&self, dx: i64, dy: i64) -> R { R { l: self.l + dx, t: self.t + dy, w: self.w, h: self.h } }
-    /// same point set as the library rectangle (exact if non-empty, any zero-sized one if empty)
-    pub fn same(&self, r: &Rectangle) -> bool {
-        if self.empty() { r.size.width == 0 || r.size.height == 0 } else { *self == R::of(r) }
-    }
-}
 
 #[derive(Clone, Copy, Debug)]
 pub struct Level { pub kind: Kind, pub clip: R, pub dx: i64, pub dy: i64, pub bbox: R }
